@@ -277,6 +277,7 @@ static inline int skv_main(int argc, char **argv, Harness &h) {
             RC_FAIL(r);
         }
     });
+    for (auto &kv : api_call_counts()) st.classes["api/" + kv.first] += kv.second;
     if (!out.empty()) { st.dump(out); st.dump_hashes(out + ".hashes"); }
     if (st.digest_file) { fclose(st.digest_file); st.digest_file = nullptr; }
     if (g_crash_fd >= 0) { close(g_crash_fd); g_crash_fd = -1; unlink(g_crash_path); }
